@@ -17,6 +17,7 @@ Require Import UPV.Model.KindOf UPV.Proofs.KindOf_proofs.
 Require Import UPV.Core.Eval UPV.Core.Interp UPV.Planning.Problem UPV.Model.KindBridge.
 Require Import UPV.Walkers.Subst UPV.Compilers.Variants UPV.Compilers.LayerA_Defs UPV.Compilers.LayerA_Quant.
 Require Import UPV.Compilers.LayerA_Variants UPV.Compilers.LayerA_Inv UPV.Compilers.LayerA_Neg.
+Require Import UPV.Planning.Ground UPV.Compilers.LayerA_Ground.
 
 (* ---------------------------------------------------------------- filter algebra *)
 Lemma filter_flat_map {A B} (p : B -> bool) (g : A -> list B) l :
@@ -1404,5 +1405,153 @@ Theorem ncr_kind_model nmap rw smp ax ax' P k d :
   forall f, In f la_covered -> In f (la_kind ax' (neg_compile nmap rw smp P)) -> mem f (k_feats d) = true.
 Proof.
   intros A B W Run f C H. apply (ncr_kind nmap rw smp P A B k d (within_of_kind ax P _ W) Run f).
+  exact (covered_feats ax' _ f C H).
+Qed.
+
+(* ---------------------------------------------------------------- Grounder *)
+Ltac p_list H I :=
+  simpl; rewrite ?ops_go; right; apply ops_map in I; destruct I as (x & Hx & I); rewrite Forall_forall in H;
+  apply (ops_in_list _ x); [exact Hx | exact (H x Hx I)].
+Ltac p_bin IH1 IH2 :=
+  let I := fresh "I" in
+  simpl; intros [<-|I]; [left; reflexivity|right]; apply in_app_iff in I; apply in_app_iff;
+  destruct I as [I|I]; [left; exact (IH1 I) | right; exact (IH2 I)].
+Ltac p_un IH := let I := fresh "I" in simpl; intros [<-|I]; [left; reflexivity|right; exact (IH I)].
+
+(* parameter substitution introduces no relevant operator (a parameter becomes a constant) *)
+Lemma psubst_ops o sg : rel o = true -> forall e, In o (ops_of (psubst sg e)) -> In o (ops_of e).
+Proof.
+  intro R.
+  induction e using expr_ind'; cbn [psubst]; try (intro H0; exact H0).
+  - destruct (lookupN p sg); [|intro H0; exact H0]. intro I. apply value_expr_ops in I. congruence.
+  - simpl; rewrite !ops_go; intros [<-|I]; [left; reflexivity|]. p_list H I.
+  - simpl; rewrite !ops_go; intros [<-|I]; [left; reflexivity|]. p_list H I.
+  - simpl; rewrite !ops_go; intros [<-|I]; [left; reflexivity|]. p_list H I.
+  - simpl; rewrite !ops_go; intros [<-|I]; [left; reflexivity|]. p_list H I.
+  - p_un IHe.
+  - p_bin IHe1 IHe2.
+  - p_bin IHe1 IHe2.
+  - p_un IHe.
+  - p_un IHe.
+  - simpl; rewrite !ops_go; intros [<-|I]; [left; reflexivity|]. p_list H I.
+  - p_bin IHe1 IHe2.
+  - simpl; rewrite !ops_go; intros [<-|I]; [left; reflexivity|]. p_list H I.
+  - p_bin IHe1 IHe2.
+  - p_bin IHe1 IHe2.
+  - p_bin IHe1 IHe2.
+  - p_bin IHe1 IHe2.
+  - p_un IHe.
+  - p_un IHe.
+  - p_bin IHe1 IHe2.
+  - p_bin IHe1 IHe2.
+  - p_un IHe.
+Qed.
+
+Lemma keep_vars_nil fv : forall seen, keep_vars fv seen [] = [].
+Proof. reflexivity. Qed.
+
+Lemma grd_program k d : run_resulting gen_tables (e_resulting E_up_grounder) k = Ok d -> k_feats d = k_feats k.
+Proof. unfold run_resulting. cbn [E_up_grounder e_resulting exec]. intro H. inversion H. reflexivity. Qed.
+
+Section GRDk.
+  Variable smp : expr -> expr.
+  Variable tuples : N -> list (list value).
+  Variable nm : N -> nat -> N.
+  Variable P : problem.
+  Let P' := ground_compile smp tuples nm P.
+  (* the Simplifier leaves the constant TRUE alone (the condition of an unconditional effect is simplified too) *)
+  Hypothesis smp_true : smp (EBool true) = EBool true.
+
+  Lemma grd_action ia' :
+    In ia' (p_actions P') -> exists ia args, In ia (p_actions P) /\ g_action smp (snd ia) args = Some (snd ia').
+  Proof.
+    unfold P'. cbn [ground_compile p_actions]. unfold gt_actions. rewrite in_map_iff. intros (x & <- & Hx).
+    unfold ground_table in Hx. rewrite in_flat_map in Hx. destruct Hx as (ia & Hia & Hx).
+    rewrite in_flat_map in Hx. destruct Hx as (kt & _ & Hx).
+    destruct (g_action smp (snd ia) (snd kt)) eqn:G; [|destruct Hx]. destruct Hx as [<-|[]]. exists ia, (snd kt). auto.
+  Qed.
+
+  Lemma grd_effect sg effs e' :
+    In e' (g_effects smp sg effs) ->
+    exists e, In e effs /\ e_kind e' = e_kind e /\ (e_vars e' <> [] -> e_vars e <> []) /\
+              e_cond e' = smp (psubst sg (e_cond e)).
+  Proof.
+    unfold g_effects. rewrite in_flat_map. intros (e & He & H). exists e. split; [exact He|].
+    unfold g_effect in H. destruct (is_false _); [destruct H|]. destruct H as [<-|[]]. cbn [e_kind e_vars e_cond].
+    split; [reflexivity|split; [|reflexivity]]. intros NE E. apply NE. rewrite E. reflexivity.
+  Qed.
+
+  Lemma grd_effs e' :
+    In e' (la_effs P') ->
+    exists e sg, In e (la_effs P) /\ e_kind e' = e_kind e /\ (e_vars e' <> [] -> e_vars e <> []) /\
+                 e_cond e' = smp (psubst sg (e_cond e)).
+  Proof.
+    rewrite in_la_effs. intros (ia' & Hia' & He'). apply grd_action in Hia'. destruct Hia' as (ia & args & Hia & G).
+    unfold g_action in G. destruct (add_effs_ok _ _ _); [|discriminate]. destruct (g_pre _ _ _); [|discriminate].
+    inversion G as [G']. rewrite <- G' in He'. cbn [a_effs] in He'. apply grd_effect in He'.
+    destruct He' as (e & He & A & B & C). exists e, (zip_params (a_params (snd ia)) args).
+    split; [apply in_la_effs; exists ia; auto|auto].
+  Qed.
+
+  Lemma grd_conds c' o :
+    In c' (la_conds P') -> rel o = true -> keeps_op smp o -> In o (ops_of c') -> exists c, In c (la_conds P) /\ In o (ops_of c).
+  Proof.
+    intros Hc R Kp I. apply in_la_conds in Hc. destruct Hc as [(ia' & Hia' & Hc)|[Hc|Hc]].
+    - pose proof Hia' as Hact. apply grd_action in Hia'. destruct Hia' as (ia & args & Hia & G).
+      destruct Hc as [Hc|(e' & He' & ->)].
+      + unfold g_action in G. destruct (add_effs_ok _ _ _); [|discriminate].
+        destruct (g_pre smp _ (a_pre (snd ia))) as [pre|] eqn:GP; [|discriminate]. inversion G as [G'].
+        rewrite <- G' in Hc. cbn [a_pre] in Hc. unfold g_pre in GP.
+        destruct (a_pre (snd ia)) as [|p0 ps] eqn:AP; [inversion GP; subst; destruct Hc|].
+        set (sg := zip_params (a_params (snd ia)) args) in *.
+        assert (J : In o (ops_of (smp (mkAnd (map (psubst sg) (p0 :: ps)))))).
+        { destruct (smp (mkAnd (map (psubst sg) (p0 :: ps)))) eqn:S; try (inversion GP; subst; destruct Hc as [<-|[]]; exact I).
+          - destruct b; [inversion GP; subst; destruct Hc | discriminate].
+          - inversion GP; subst. simpl. rewrite ops_go. right. exact (ops_in_list _ _ _ Hc I). }
+        apply Kp in J. apply (mkAnd_rel _ _ R) in J. destruct J as (x & Hx & J). apply in_map_iff in Hx.
+        destruct Hx as (c & <- & Hc0). apply (psubst_ops _ _ R) in J.
+        exists c. split; [apply in_la_conds; left; exists ia; split; [exact Hia|left; rewrite AP; exact Hc0]|exact J].
+      + assert (He : In e' (la_effs P')) by (apply in_la_effs; exists ia'; auto).
+        apply grd_effs in He. destruct He as (e & sg & He & _ & _ & C). rewrite C in I. apply Kp in I.
+        apply (psubst_ops _ _ R) in I. apply in_la_effs in He. destruct He as (ia0 & Hia0 & He).
+        exists (e_cond e). split; [apply in_la_conds; left; exists ia0; split; [exact Hia0|right; exists e; auto]|exact I].
+    - exists c'. split; [apply in_la_conds; auto|exact I].
+    - exists c'. split; [apply in_la_conds; auto|exact I].
+  Qed.
+
+  Theorem grd_kind k d :
+    smp_ok smp -> la_within P (k_feats k) ->
+    run_resulting gen_tables (e_resulting E_up_grounder) k = Ok d ->
+    forall f, In f (la_feats P') -> (f = f_NEGATIVE_CONDITIONS -> keeps_op smp op_NOT) -> mem f (k_feats d) = true.
+  Proof.
+    intros S W Run f H N. rewrite (grd_program k d Run).
+    apply in_la_feats in H.
+    destruct H as [(fd & Hfd & H)|[(c' & Hc' & H)|[(-> & e' & He' & U)|[(-> & e' & He' & V)|[(-> & e' & He' & U)|[(-> & e' & He' & U)|(-> & NE)]]]]]].
+    - exact (within_fluent P _ f fd W Hfd H).
+    - apply in_cond_feats in H. destruct H as (o & R & <- & I).
+      assert (Kp : keeps_op smp o).
+      { destruct (rel_not_or o R) as [->|Ho]; [apply N; reflexivity | apply S; exact Ho]. }
+      destruct (grd_conds c' o Hc' R Kp I) as (c & Hc & C). exact (within_cond P _ c o W Hc R C).
+    - apply grd_effs in He'. destruct He' as (e & sg & He & _ & _ & C).
+      apply (within_cond_eff P); [exact W|]. exists e. split; [exact He|].
+      destruct (is_true (e_cond e)) eqn:T; [|reflexivity]. apply is_true_eq in T. rewrite T in C. cbn [psubst] in C.
+      rewrite smp_true in C. rewrite C in U. discriminate U.
+    - apply grd_effs in He'. destruct He' as (e & sg & He & _ & B & _).
+      apply W. apply in_la_feats. do 3 right; left. split; [reflexivity|]. exists e. auto.
+    - apply grd_effs in He'. destruct He' as (e & sg & He & K & _).
+      apply (within_inc P); [exact W|]. exists e. split; [exact He|]. unfold is_inc in *. rewrite <- K. exact U.
+    - apply grd_effs in He'. destruct He' as (e & sg & He & K & _).
+      apply (within_dec P); [exact W|]. exists e. split; [exact He|]. unfold is_dec in *. rewrite <- K. exact U.
+    - apply (within_inv P); [exact W|]. exact NE.
+  Qed.
+End GRDk.
+
+Theorem grd_kind_model smp tuples nm ax ax' P k d :
+  smp (EBool true) = EBool true -> smp_ok smp -> (forall f, In f (la_kind ax P) -> mem f (k_feats k) = true) ->
+  run_resulting gen_tables (e_resulting E_up_grounder) k = Ok d ->
+  forall f, In f la_covered -> In f (la_kind ax' (ground_compile smp tuples nm P)) ->
+            (f = f_NEGATIVE_CONDITIONS -> keeps_op smp op_NOT) -> mem f (k_feats d) = true.
+Proof.
+  intros T S W Run f C H N. apply (grd_kind smp tuples nm P T k d S (within_of_kind ax P _ W) Run f); [|exact N].
   exact (covered_feats ax' _ f C H).
 Qed.
